@@ -4,7 +4,7 @@ from .lib import *
 
 RULE = ("decision grid enumerated completely: 9 request methods x status codes x response versions {1.0,1.1} x Content-Length in "
         "{absent,'0','7','18446744073709551615','18446744073709551616','abc','+5','5 5',non-text,'007'} x Transfer-Encoding in "
-        "{absent,chunked,Chunked,'gzip, chunked','chunked, gzip','gzip',identity,non-text}; quick: boundary statuses "
+        "{absent,chunked,Chunked,'gzip, chunked','chunked, gzip','gzip',identity,non-text} (x Location field present/absent for 3xx); quick: boundary statuses "
         "{101,199,200,204,205,299,300,301,304,305,307,399,400,999}; thorough: additionally every status 101..999 with 5x4 header "
         "classes. Each cell: head -> try_response -> proceed -> body mode. Status 100 is C11's. oracle = transcription of the "
         "statement's rule list. non-trivial = every cell (each is a distinct decision); distinct = distinct cells")
@@ -46,13 +46,13 @@ def expected(method, status, v11, cl, te):
     return (mode, succ)
 
 
-def build(method, status, version, cl, te):
+def build(method, status, version, cl, te, loc=True):
     fields = []
     if cl is not None:
         fields.append((b"Content-Length", cl))
     if te is not None:
         fields.append((b"Transfer-Encoding", te))
-    if 300 <= status <= 399:
+    if 300 <= status <= 399 and loc:
         fields.append((b"Location", b"/n"))
     head = render_response_head(version, status, b"X", fields)
     if method in BODY_METHODS:
@@ -60,17 +60,23 @@ def build(method, status, version, cl, te):
     else:
         ops = [op_new(method, "1.1", "http", "a.test", "/", []), "proceed", "write_head #4096", "proceed"]
     ops += ["raw_try_response %s" % hx(head), "q_can_proceed", "proceed", "q_body_mode", "q_can_proceed"]
-    return {"ops": ops, "meta": {"cell": [method, status, version, cl.hex() if cl is not None else None, te.hex() if te is not None else None]}}
+    return {"ops": ops, "meta": {"cell": [method, status, version, cl.hex() if cl is not None else None, te.hex() if te is not None else None],
+                                 "location": bool(loc and 300 <= status <= 399)}}
 
 
 def generate(rng, tier, mult):
     out = []
     for m, s, v, cl, te in itertools.product(METHODS, BOUNDARY, ["1.0", "1.1"], CLS, TES):
         out.append(build(m, s, v, cl, te))
+        if 300 <= s <= 399:
+            # the successor must not depend on whether the 3xx response carries a Location field
+            out.append(build(m, s, v, cl, te, loc=False))
     if tier == "thorough":
         rest = [s for s in range(101, 1000) if s not in BOUNDARY]
         for m, s, v, cl, te in itertools.product(METHODS, rest, ["1.0", "1.1"], CLS_SMALL, TES_SMALL):
             out.append(build(m, s, v, cl, te))
+            if 300 <= s <= 399:
+                out.append(build(m, s, v, cl, te, loc=False))
     _stats["cells"] = len(out)
     return out
 
@@ -90,7 +96,7 @@ def oracle(script, obs):
         return ["panic in cell %s" % script["meta"]["cell"]]
     i = next(k for k, op in enumerate(ops) if op.startswith("raw_try_response"))
     o = obs[i]
-    cell = "%s %d HTTP/%s cl=%r te=%r" % (m, s, v, cl, te)
+    cell = "%s %d HTTP/%s cl=%r te=%r%s" % (m, s, v, cl, te, "" if script["meta"].get("location", True) or not 300 <= s <= 399 else " (no Location field)")
     if exp[0] == "err":
         if not o.startswith("err"):
             return ["%s: non-numeric Content-Length not an error: %s" % (cell, o[:60])]
